@@ -64,6 +64,7 @@ struct Run
   int templog = 0;
   int lazycomp = 0;   // the wrapped component does not look up the runtime itself (a hand-written component need not)
   int idquery = 0;    // ask for the client identifiers after this many registrations (0 = only at the end)
+  int hquery = 0;     // the user's out-event handlers of the multi-client port ask the shell for the client identifiers
   int temploc = 0;    // 'create' only: the prototype locator handed to the constructor is destroyed right after construction
   int reentry = 0;    // the user's log sink registers one more client ('monitor') when it receives its k-th message
   int sibling = 0;    // 1/2: a second, independent instance of the same shell type lives in the process (set up before / after the main one)
@@ -119,7 +120,38 @@ static const int CTR_SIB_NDELIV = 11;  // out-events the sibling's user side rec
 static const int CTR_SIB_LASTCL = 12;  // ... and the client that got the last one
 static const int CTR_FCSTATE = 13;     // 0 = FinalConstruct not called yet, 1 = inside, 2 = returned, 3 = threw
 static const int CTR_LOGCOUNT = 14;    // messages the user's log sink has received
+static const int CTR_GEN_BASE = 200;   // + client: how often that client's out-event handlers have been re-bound
 static void set_ctr(int c, long v) { sim_ctr_add(c, v - sim_ctr_get(c)); }
+static std::string pct_encode(const std::string& in)
+{
+  static const char* hex = "0123456789ABCDEF";
+  std::string o;
+  for (unsigned char c : in)
+  {
+    if ((c >= '0' && c <= '9') || (c >= 'a' && c <= 'z') || (c >= 'A' && c <= 'Z') || c == '-' || c == '_' || c == '.' || c == '~') o += static_cast<char>(c);
+    else
+    {
+      o += '%';
+      o += hex[c >> 4];
+      o += hex[c & 15];
+    }
+  }
+  return o;
+}
+static std::string pct_decode(const std::string& in)
+{
+  std::string o;
+  for (size_t i = 0; i < in.size(); ++i)
+  {
+    if (in[i] == '%' && i + 2 < in.size() + 1)
+    {
+      o += static_cast<char>(std::stoi(in.substr(i + 1, 2), nullptr, 16));
+      i += 2;
+    }
+    else o += in[i];
+  }
+  return o;
+}
 static void rec(const std::string& s)
 {
   if (sim_ctr_get(CTR_QUIET) && s.compare(0, 7, "sibling") != 0 && s.compare(0, 5, "xtalk") != 0) return;
@@ -207,8 +239,15 @@ HandlerPlan handler_enter(const EvCtx& c, const std::vector<long long>& in, size
   const bool valued = g_model.events[static_cast<size_t>(c.ev)].valued;
   rec("hdl hid=" + std::to_string(plan.hid) + " ev=" + std::to_string(c.ev) + " side=" + (c.side ? "i" : "o") +
       " cl=" + std::to_string(c.client) + " in=" + join(in) + " reply=" + (valued ? std::to_string(plan.reply) : std::string("-")) +
-      " out=" + join(out) + " disp=" + std::to_string(disp) + " ord=" + std::to_string(ord));
+      " out=" + join(out) + " disp=" + std::to_string(disp) + " ord=" + std::to_string(ord) + " gen=" + std::to_string(c.gen));
   sim_yield(YK_HANDLER);
+  if (g_run.hquery && c.side == 0 && g_model.mc_port >= 0 && g_model.events[static_cast<size_t>(c.ev)].port == g_model.mc_port && g_shell)
+  {
+    // fault kind "user handler re-enters the shell": while it handles an out-event of the multi-client port the user's
+    // code asks the shell who is registered (a const helper any thread may call at any time after FinalConstruct)
+    const size_t n = g_model.shell.client_ids(g_shell, g_model.mc_port).size();
+    rec("handler_asked_identifiers n=" + std::to_string(n));
+  }
   return plan;
 }
 
@@ -478,6 +517,31 @@ static CallResult outer_call(int ev, int client)
   return r;
 }
 
+// The user replaces the out-event handlers of one of its client ports (a new peer takes over) while the port is quiet:
+// nothing is in flight, nobody else is calling.  In ConnectPorts mode the user's own port is re-bound and tied again.
+static void rebind_client(int cl)
+{
+  if (g_model.mc_port < 0 || cl < 0 || static_cast<size_t>(cl) >= g_outer_obj[static_cast<size_t>(g_model.mc_port)].size()) return;
+  while (sim_ctr_get(CTR_PENDING) > 0)
+  {
+    sim_flag_clear(g_idle_flag);
+    if (sim_ctr_get(CTR_PENDING) > 0) sim_flag_wait(g_idle_flag, YK_BLOCK);
+  }
+  const int gen = static_cast<int>(sim_ctr_add(CTR_GEN_BASE + cl, 1));
+  PortDesc& pd = g_model.ports[static_cast<size_t>(g_model.mc_port)];
+  void* obj = g_outer_obj[static_cast<size_t>(g_model.mc_port)][static_cast<size_t>(cl)];
+  for (size_t ei = 0; ei < g_model.events.size(); ++ei)
+  {
+    EventDesc& e = g_model.events[ei];
+    if (e.port != g_model.mc_port || !outer_handles(e)) continue;
+    EvCtx ctx{static_cast<int>(ei), 0, cl};
+    ctx.gen = gen;
+    e.bind(obj, ctx);
+  }
+  if (g_run.connect) pd.connect(g_shell, g_run.client_names[static_cast<size_t>(cl)], obj);
+  rec("rebind cl=" + std::to_string(cl) + " gen=" + std::to_string(gen));
+}
+
 static void task_body(void* arg)
 {
   const TaskSpec& t = *static_cast<const TaskSpec*>(arg);
@@ -493,6 +557,10 @@ static void task_body(void* arg)
       else if (op.kind == 'W')
       {
         for (int i = 0; i < op.a[0]; ++i) sim_yield(YK_USER);
+      }
+      else if (op.kind == 'R')
+      {
+        rebind_client(op.a[0]);
       }
       else if (op.kind == 'Y')
       {
@@ -770,7 +838,7 @@ static void execute_run(int out_fd)
           if (R.idquery == k + 1 && k + 1 < R.n_clients)
           {  // a user (diagnostics, logging) may ask for the identifiers at any time during registration
             std::string early;
-            for (auto& s : g_model.shell.client_ids(g_shell, static_cast<int>(pi))) early += (early.empty() ? "" : ",") + s;
+            for (auto& s : g_model.shell.client_ids(g_shell, static_cast<int>(pi))) early += (early.empty() ? "" : ",") + pct_encode(s);
             rec("client_ids_early port=" + std::to_string(pi) + " after=" + std::to_string(k + 1) + " ids=" + (early.empty() ? "-" : early));
           }
         }
@@ -783,7 +851,7 @@ static void execute_run(int out_fd)
           rec(std::string("client_ports distinct=") + (distinct ? "1" : "0") + " n=" + std::to_string(g_outer_obj[pi].size()));
         }
         std::string ids;
-        for (auto& s : g_model.shell.client_ids(g_shell, static_cast<int>(pi))) ids += (ids.empty() ? "" : ",") + s;
+        for (auto& s : g_model.shell.client_ids(g_shell, static_cast<int>(pi))) ids += (ids.empty() ? "" : ",") + pct_encode(s);
         rec("client_ids port=" + std::to_string(pi) + " ids=" + (ids.empty() ? "-" : ids));
       }
       else
@@ -998,7 +1066,7 @@ static bool parse_run(const std::vector<std::string>& lines, Run& R)
     {
       is >> R.n_clients;
       std::string nm;
-      while (is >> nm) R.client_names.push_back(nm);
+      while (is >> nm) R.client_names.push_back(pct_decode(nm));   // identifiers are arbitrary strings: percent-coded on the tape
       for (int k = static_cast<int>(R.client_names.size()); k < R.n_clients; ++k) R.client_names.push_back("client" + std::to_string(k));
     }
     else if (kw == "UNBIND")
@@ -1018,6 +1086,7 @@ static bool parse_run(const std::vector<std::string>& lines, Run& R)
     else if (kw == "SIBLING") is >> R.sibling;
     else if (kw == "REENTRY") is >> R.reentry;
     else if (kw == "TEMPLOC") is >> R.temploc;
+    else if (kw == "HQUERY") is >> R.hquery;
     else if (kw == "TASK")
     {
       TaskSpec t;
@@ -1026,7 +1095,7 @@ static bool parse_run(const std::vector<std::string>& lines, Run& R)
       t.pre = flag == "pre" ? 1 : 0;
       R.tasks.push_back(t);
     }
-    else if (kw == "O" || kw == "Y" || kw == "W")
+    else if (kw == "O" || kw == "Y" || kw == "W" || kw == "R")
     {
       if (R.tasks.empty()) return false;
       Op op{};
